@@ -2083,7 +2083,8 @@ def remap(pulse: PulseSequence, order: Sequence[int], d_per_qubit: int = 2,
         remapped_pulse.cache_filter_function(omega, filter_function=remapped_filter_function)
 
     if pulse.is_cached('total_propagator_liouville') or pulse.is_cached('control_matrix'):
-        if pulse.basis.btype != 'Pauli':
+        if pulse.basis.btype != 'Pauli' or not pulse.basis == Basis.pauli(N):
+            # (arrays derived from a Pauli basis, e.g. by indexing, inherit the label)
             warn('pulse does not have a separable basis which is needed to '
                  + 'retain cached control matrices.')
 
@@ -2456,7 +2457,9 @@ def extend(
             warn('Original pulses had GGM basis which is not separable into '
                  + 'a tensor product. Cannot retain cached control matrices.')
             basis = Basis.ggm(d_per_qubit**N)
-        elif btype == 'Pauli':
+        elif btype == 'Pauli' and all(pulse.basis == Basis.pauli(int(round(np.log2(pulse.d))))
+                                      for pulse in pulses):
+            # (arrays derived from a Pauli basis, e.g. by indexing, inherit the label)
             basis = Basis.pauli(N)
         else:
             warn('Original pulses had custom basis which I cannot extend.')
